@@ -404,15 +404,16 @@ func init() {
 	})
 	register(&Property{
 		ID:        "C20",
-		Technique: "polynomial normal forms of the index and description formulas compared with the property's bin definition, guard dominance of the float-to-int conversion (clamp before convert), index-origin check of every bins access, straight-line accumulation check, allocation check of the accumulator rows, length-agreement check of the collectBinning loops, aliasing rule R09.1",
+		Technique: "polynomial normal forms of the index and description formulas compared with the property's bin definition, guard dominance of the float-to-int conversion (clamp before convert), index-origin check of every bins access, straight-line accumulation check, allocation check of the accumulator rows, length-agreement check of the collectBinning loops, pass-through check of the float argument readers (single assignment, no arithmetic between the value's ToFloat and the accumulator), aliasing rule R09.1",
 		Explanation: "Decides the structural side of mass conservation: getIndex computes floor((x-start)/size)+1 and converts to int only under 0 <= f < bins established in the float domain, returning the two outer bins otherwise; getDescr(i) describes [start+(i-1)*size, start+i*size) with the open side for the outer bins, the interval getIndex maps to i; every access to the bins uses a getIndex result of the matching axis, whose size is the length of that slice dimension; Add performs exactly one '+=' of the summand on every call; " +
-			"rows are separate allocations; collectBinning accumulates element-wise only under equal lengths and never into a slice handed out by a list; negative counts are rejected before make. Not decided: floating point rounding of the index formula at bin edges, the sums themselves, additivity for every split (a run-time relation).",
+			"rows are separate allocations; collectBinning accumulates element-wise only under equal lengths and never into a slice handed out by a list; negative counts are rejected before make; the grid parameters and weights handed to the accumulator are the floats the argument readers returned, and a reader returns what the value's ToFloat gave (no cleaning, rounding or re-parsing on the way). Not decided: floating point rounding of the index formula at bin edges, the sums themselves, additivity for every split (a run-time relation).",
 		Rules: []*Rule{
 			{ID: "R20.1", Title: "getIndex: index formula, clamp before convert, results are valid bins", Floor: 3, Run: ruleR201},
 			{ID: "R20.6", Title: "getDescr(i) describes the interval getIndex maps to i", Floor: 3, Run: ruleR206},
 			{ID: "R20.2", Title: "bins are indexed by getIndex results of the matching axis; Add accumulates exactly once; rows are separate allocations", Floor: 12, Run: ruleR202},
 			{ID: "R20.3", Title: "collectBinning accumulates element-wise under equal lengths", Floor: 2, Run: ruleR203},
 			{ID: "R20.7", Title: "sums are published as accumulated: the float of a bin becomes a value by a plain conversion, no arithmetic on the way", Floor: 2, Run: ruleR207},
+			{ID: "R20.8", Title: "grid and weights reach the accumulator as given: binning builtins hand on what a float reader returned, and a float reader returns what the value's ToFloat gave", Floor: 12, Run: ruleR208},
 			{ID: "R05.4", Title: "counts are range checked before make (see C05)", Floor: 4, Run: ruleR054},
 			{ID: "R09.1", Title: "list backing slices are never written in place (see C09)", Floor: 36, Run: ruleR091},
 			{ID: "R13.1", Title: "key-domain agreement of the map storages, incl. the bin description (see C13)", Floor: 9, Run: ruleR131},
